@@ -412,6 +412,19 @@ class KernelTranslator:
                 for b in st.body:
                     handle_top(b)
                 return
+            if isinstance(st, ast.If) and not st.orelse and loops is None and guard == "C.tt" and len(st.body) == 1 \
+                    and isinstance(st.body[0], ast.Return) and isinstance(st.body[0].value, ast.Name) \
+                    and st.body[0].value.id == self.out_name:
+                # `if c: return out` in front of the loops is the guard `not c` around them; `not (a == b)` is
+                # `a != b` and vice versa (exact also for NaN); other comparisons keep the explicit negation
+                t = st.test
+                if isinstance(t, ast.Compare) and len(t.ops) == 1 and isinstance(t.ops[0], (ast.Eq, ast.NotEq)):
+                    flipped = ast.Compare(left=t.left, ops=[ast.NotEq() if isinstance(t.ops[0], ast.Eq) else ast.Eq()],
+                                          comparators=t.comparators)
+                    guard = self.cond(flipped)
+                else:
+                    guard = f"(C.not {self.cond(t)})"
+                return
             if isinstance(st, ast.For) and loops is None:
                 if not (isinstance(st.target, ast.Name) and len(st.body) == 1 and isinstance(st.body[0], ast.For)):
                     raise Untranslatable("outer loop shape")
